@@ -22,6 +22,9 @@ CHECKS = {
  "C06": ("exploration", "reference-predicate oracle over generated guardian lists and every single-step corruption",
          "The real VerifySignatures is called on lists of length 0..255 (quick: 10 lengths, thorough: all) with 0-2 repeated addresses, valid ascending signature subsets and each corruption from the property (body flip, swap, shuffle, duplicate, re-index, outsider key, recovery byte, r/s zero, high-s twin, drop); boolean compared with an independent reference; both directions of the iff are counted; panics recovered.",
          "secp256k1 recovery and Keccak are shared with the code under test.", "3/C06"),
+ "C11": ("exploration", "intent-based runtime oracle on the real event conversion (hook), exported converters and parseAttestToken; attestation payloads built by the concatenation interpreted from token_bridge.ral",
+         "Events whose six fields are drawn from the property's boundary list, random in-range values, negatives, non-numeric strings, wrong type tags / Val kinds, wrong field counts, senders and nonces of wrong length are converted by the real code; if every generated value fits, the message must carry exactly those values, the block timestamp (ms exact), the tx id and the Alephium chain id, otherwise the conversion must return an error; a panic is a violation. Contract id <-> address and hex conversions are checked to be inverse on random ids, and attestation payloads built by interpreting attestToken's ++ concatenation must parse back to the same id/decimals/symbol/name.",
+         "Direct calls (no watcher, no node) - the watcher-level behaviour is C08/C09.", "3/C11"),
  "C12": ("exploration", "reference-model oracle (map id->bytes) over real badger store, public RPC server and admin service; differential isolation against a single-stream store",
          "Random multisets of VAAs over prefix-related chain ids (2/25/255, 1/10/10001, 4/42), overlapping sequences and overwrites are stored in a real badger store; every stored id, its near misses and all neighbouring streams are queried through db, PublicrpcServer (GetSignedVAA, Get*VAABatch) and admin FindMissingMessages; answers must equal the model and, for gap scans, the answer of a second store holding only that stream.",
          "Sequence windows 0..41; non-empty payloads. An empty stream may report sequence 0 as missing (streams start at 0).", "3/C12"),
